@@ -486,7 +486,8 @@ def r11_bstr(t):
                     j += 2 if t.s[j] == '\\' else 1
                 bs = _bytes_of_bstr(t.s[i + 2:j])
                 if not bs:
-                    raise LiftError("R11: empty byte string literal")
+                    # b"" : &'static [u8; 0]
+                    return (i, j + 1, '&[0u8; 0]', True)
                 # keep_origin: the replacement stands for source text (diagnostics map back to the source line)
                 return (i, j + 1, '&[' + ', '.join('%du8' % b for b in bs) + ']', True)
             i += 1
